@@ -7,3 +7,14 @@ func (m *OAM) VerifByte(i uint8) uint8 { return m.oam[i] }
 func (m *OAM) VerifDmaRunning() bool { return m.dmaRunning }
 func (m *OAM) VerifDmaInv() bool { return !m.dmaRunning || m.dmaCycle <= 161 }
 func (m *OAM) VerifPPULast() uint16 { return m.ppuLastAccess }
+
+// VerifIdleDma puts the DMA engine in one of its two idle states: as New() leaves it, or as a completed transfer leaves it
+func (m *OAM) VerifIdleDma(afterTransfer bool) {
+	m.dmaRunning = false
+	m.dmaCycle = 0
+	if afterTransfer {
+		m.dmaCycle = 162
+	}
+}
+
+func (m *OAM) VerifSetPPULast(a uint16) { m.ppuLastAccess = a }
